@@ -75,6 +75,15 @@ def focus_opts(focus: str, ch: Choices, known: dict, params: dict) -> dict:
     if focus == "C16":
         o["max_arity"] = 6
         o["max_vars"] = 8
+        if ch.chance(1, 3, "c16.wide"):
+            # what the scratch arrays are sized from: many variables per alldifferent / gcc, many values
+            o["max_arity"] = 12
+            o["max_vars"] = 12
+            o["max_extra"] = 9
+            o["max_shr"] = 8
+            o["max_space"] = 20000
+            o["types"] = ["alldifferent", "gcc", "alldifferent", "gcc", "element_liv", "element_lic", "relation", "count_eq", "lexicographic_leq"]
+            o["flavour_weights"] = [6, 0, 2]
     return o
 
 
